@@ -24,6 +24,7 @@ struct Sched {
     std::vector<int> script;
     size_t scriptPos = 0;
     bool randomMode = false;
+    bool sticky = false;
     bool diverged = false;
     uint64_t rng = 1;
     bool logPoints = false;
@@ -45,7 +46,7 @@ struct Sched {
     void begin(bool random, uint64_t seed, std::vector<int> sc, bool logPts) {
         std::unique_lock<std::mutex> lk(G);
         ts.clear(); ts.push_back(T{}); cur = 0; me = 0; active = true;
-        script = std::move(sc); scriptPos = 0; randomMode = random; rng = seed; diverged = false; logPoints = logPts; points = 0;
+        script = std::move(sc); scriptPos = 0; randomMode = random; sticky = random && seed >= (1ull << 62); rng = seed; diverged = false; logPoints = logPts; points = 0;
         objIds.clear();
     }
     // returns true when every managed thread except the caller (thread 0) has finished
@@ -70,7 +71,9 @@ struct Sched {
             bool meOk = std::find(r.begin(), r.end(), me) != r.end();
             if (randomMode) {
                 // mild bias towards continuing the running thread keeps runs short without excluding any schedule
-                if (meOk && next() % 3 == 0) n = me; else n = r[next() % r.size()];
+                // (seeds >= 2^62 select the STICKY variant: the running thread continues with probability 127/128, which gives
+                //  the long uninterrupted stretches a polling loop needs before it gives up — time does not exist here)
+                if (meOk && (sticky ? next() % 128 != 0 : next() % 3 == 0)) n = me; else n = r[next() % r.size()];
             } else n = meOk ? me : r[0];
         }
         if (logPoints) { std::string s = std::string(tag) + " " + std::to_string(n) + " /"; for (int x : r) s += " " + std::to_string(x); log(s); }
@@ -274,3 +277,14 @@ inline void start_watchdog(int secs) {
     }).detach();
 }
 } // namespace verif
+
+namespace verif {
+// stable ids for the trace analysis: the mutex of a Resource-like object is registered first, then its condition variable.
+// A rewrite of the class under test that no longer has a member `m_cv` (e.g. semaphores instead) still compiles: a
+// placeholder keeps the numbering, the property monitors work on call/return events and do not need it.
+template<class S, class R> void registerResourceIds(S &s, R &r) {
+    s.objId(&r.m_mutex);
+    if constexpr (requires { r.m_cv; }) s.objId(&r.m_cv);
+    else { static char placeholder[64]; static int used = 0; s.objId(&placeholder[used++ % 64]); }
+}
+}
